@@ -83,6 +83,12 @@ func (c RawConfiguration) handleAsyncCall(ctx context.Context, fut *Async, state
 		replies = make(map[uint32]protoreflect.ProtoMessage)
 	)
 
+	if state.expectedReplies == 0 {
+		// no node was targeted; there is nothing to wait for
+		fut.reply, fut.err = resp, QuorumCallError{cause: Incomplete, errors: errs, replies: len(replies)}
+		return
+	}
+
 	for {
 		select {
 		case r := <-state.replyChan:
